@@ -2,6 +2,7 @@ package main
 
 import (
 	"encoding/json"
+	"github.com/xjslang/xjs/sourcemap"
 
 	"github.com/xjslang/xjs/ast"
 	"github.com/xjslang/xjs/lexer"
@@ -54,24 +55,42 @@ type compiled struct {
 	Unstable bool `json:"unstable,omitempty"`
 }
 
-// compileAgain builds ONE compiler for the configuration, compiles the tree twice with it and
-// returns the second result; unstable reports whether it differs from the given first result.
+var decoyProg = func() *ast.Program {
+	p, _ := parser.NewBuilder(lexer.NewBuilder()).Build("let zq = qz + 1;\nfunction zz(zp) { return zp }\nzz(zq, \"s\");\n").ParseProgram()
+	return p
+}()
+
+func mapOf(sm *sourcemap.SourceMap) map[string]any {
+	if sm == nil {
+		return nil
+	}
+	names := sm.Names
+	if names == nil {
+		names = []string{}
+	}
+	return map[string]any{"version": sm.Version, "mappings": sm.Mappings, "names": append([]string{}, names...)}
+}
+
+// compileAgain builds ONE compiler for the configuration and uses it three times: the tree, another
+// program (other identifiers, other lines), the tree again.  The result of the FIRST compilation is
+// read only after the later ones (a result handed out must not change afterwards): if it differs
+// from the given fresh result it is returned; otherwise the third result is.  unstable reports
+// whether what is returned differs from the fresh result.
 func compileAgain(name string, prog *ast.Program, code1 string, sm1 map[string]any) (string, map[string]any, bool) {
 	defer func() { _ = recover() }()
 	cc := cfgByName(name).compiler()
-	_ = cc.Compile(prog)
-	res := cc.Compile(prog)
-	var sm map[string]any
-	if res.SourceMap != nil {
-		names := res.SourceMap.Names
-		if names == nil {
-			names = []string{}
-		}
-		sm = map[string]any{"version": res.SourceMap.Version, "mappings": res.SourceMap.Mappings, "names": names}
-	}
+	r1 := cc.Compile(prog)
+	_ = cc.Compile(decoyProg)
+	r3 := cc.Compile(prog)
 	b1, _ := json.Marshal(sm1)
-	b2, _ := json.Marshal(sm)
-	return res.Code, sm, res.Code != code1 || string(b1) != string(b2)
+	sm1b := mapOf(r1.SourceMap)
+	b1b, _ := json.Marshal(sm1b)
+	if r1.Code != code1 || string(b1b) != string(b1) {
+		return r1.Code, sm1b, true
+	}
+	sm := mapOf(r3.SourceMap)
+	b3, _ := json.Marshal(sm)
+	return r3.Code, sm, r3.Code != code1 || string(b3) != string(b1)
 }
 
 // compile: {"id":..,"src":[bytes],"cfgs":[names],"trace":[names]} -> the source is parsed once (default
